@@ -167,7 +167,8 @@ def build(chk: Check) -> None:
                     inter[i] = Rec("Interaction", {"parity_prefactor": SV(e, "real")})
                     etas.append(e)
             transition = Rec("Transition", {"topology": Rec("Topology", {"nodes": list(range(k))}), "interactions": inter})
-            self_rec = Rec("Builder", {"naming": Rec("Naming", {"parity_partner_coefficient_mapping": Rec("Mapping", {"__map__": SMap(has, val)})})})
+            self_rec = Rec("Builder", {"naming": Rec("Naming", {"parity_partner_coefficient_mapping": Rec("Mapping", {"__map__": SMap(has, val)})})},
+                           real_class=__import__("ampform.helicity", fromlist=["x"]).HelicityAmplitudeBuilder)  # private helper methods of the real class are interpreted
             tag = f"k={k}/none={''.join('N' if m else 'e' for m in none_mask)}"
             try:
                 outs = ex.run(meth, [self_rec, transition], st=st)
@@ -190,8 +191,13 @@ def build(chk: Check) -> None:
                 if isinstance(v, SV) and v.sort == "int":
                     vt = z3.ToReal(vt)
                 clauses.append(z3.Implies(pc, vt == spec))
+            # internal obligations (dict[key] needs key in dict, ...) named by WHAT they demand, not by the function they arise in: the same
+            # demand raised inside an extracted helper is the same obligation
+            by_kind: dict[str, list] = {}
             for o in ex.merged_obligations():
-                chk.smt(f"prefactor[{tag}].{o.name}", o.hyps, o.claim, function=F, lemma=True, replay=search, tactics=("default",))
+                by_kind.setdefault(o.name.split(".")[-1], []).append(z3.Implies(z3.And(*o.hyps) if o.hyps else z3.BoolVal(True), o.claim))
+            for kind_, cls_ in by_kind.items():
+                chk.smt(f"prefactor[{tag}].{kind_}", [], z3.And(*cls_), function=F, lemma=True, replay=search, tactics=("default",))
             chk.smt(f"prefactor[{tag}].ens.product_over_exactly_the_flipped_nodes", [], z3.And(*clauses) if clauses else z3.BoolVal(False), function=F,
                     replay=search, tactics=("default", "nlsat"))
             chk.smt(f"prefactor[{tag}].ens.never_raises", [], z3.And(*no_raise) if no_raise else z3.BoolVal(True), function=F, replay=search, tactics=("default",))
